@@ -74,7 +74,12 @@ def batch(args):
             qs = q.EmergencyQuorum(n_agents=n, budget=budget, emergency_threshold=thr, silent=True)
         else:
             strat = {s.value: s for s in q.VotingStrategy}[cfgd["strategy"]]
-            qs = q.QuorumSensing(n_agents=n, budget=budget, strategy=strat, threshold=thr, min_voters=cfgd["minv"], silent=True)
+            if cfgd.get("via") == "set_strategy":      # the same configuration reached by reconfiguring a quorum that had another strategy and a custom threshold
+                other = q.VotingStrategy.THRESHOLD if strat is not q.VotingStrategy.THRESHOLD else q.VotingStrategy.WEIGHTED
+                qs = q.QuorumSensing(n_agents=n, budget=budget, strategy=other, threshold=0.3 if (n + cfgd["minv"]) % 2 else 0.9, min_voters=cfgd["minv"], silent=True)
+                qs.set_strategy(strat) if thr is None else qs.set_strategy(strat, thr)
+            else:
+                qs = q.QuorumSensing(n_agents=n, budget=budget, strategy=strat, threshold=thr, min_voters=cfgd["minv"], silent=True)
     stubs = []
     for i, prof in enumerate(qs.colony):
         s = StubVoter("v%d" % i, types)
@@ -162,6 +167,8 @@ def run(tier):
     cs = configs(tier)
     full, small = ([0, 4, 8, 16], [0, 2, 4, 8]), ([0, 4, 16], [0, 2, 8])
     for ci, c in enumerate(cs):
+        if not c["emergency"] and (ci % 2 == 1 or not quick):
+            c = dict(c, via="set_strategy") if quick else c
         sizes = [(1, full), (2, full), (3, small if quick else full), (5, ([8], [8]))]
         if not quick:
             sizes += [(4, small), (7, ([8], [8]))]
@@ -175,8 +182,11 @@ def run(tier):
             if quick and n == 5 and ci % 2 != 0 and not c["emergency"]:
                 continue
             jobs.append((c, n, ws, cs_, "c%dn%d" % (ci, n)))
+    if not quick:
+        jobs += [(dict(c, via="set_strategy"), n, ws, cs_, tag + "r") for (c, n, ws, cs_, tag) in jobs if not c["emergency"] and n <= 3]
     with cf.ProcessPoolExecutor(max_workers=8) as ex:
         out = list(ex.map(batch, jobs))
+    R.cov["configurations_reached_via_set_strategy"] = sum(1 for j in jobs if j[0].get("via") == "set_strategy")
     for x in out:
         R.cov["traces_validated_against_impl"] += x["n"]
         R.cov["evaluations"] += x["n"]
@@ -192,10 +202,10 @@ def run(tier):
     R.sample(out[len(out) // 2]["sample"], cap=3)
     R.cov["exhaustive"] = True
     R.cov["configurations"] = len(cs)
-    R.cov["rule"] = ("for each configuration (7 strategies + EmergencyQuorum, default / fractional / count thresholds, min_voters 1..3): every ballot of 1-2 voters on the full "
+    R.cov["rule"] = ("for each configuration (7 strategies + EmergencyQuorum, default / fractional / count thresholds, min_voters 1..3; %s reached through set_strategy() on a quorum that had another strategy and a custom threshold): every ballot of 1-2 voters on the full "
                      "dyadic grid (weights 0,1/2,1,2 x confidences 0,1/4,1/2,1 x permit/block, + abstain/defer/failure), 3 voters on %s, 5%s voters on kinds only, run through "
                      "run_vote with stub voters; TLC judges every record and every one-step improvement edge (Monotone). non-trivial = mixed ballot with at least one permit"
-                     % ("a 3x3 grid" if quick else "the full grid", "" if quick else " and 7"))
+                     % ("every second configuration" if quick else "every configuration also", "a 3x3 grid" if quick else "the full grid", "" if quick else " and 7"))
     R.assumptions += ["stub voters substituted through the public AgentProfile.agent field; confidence via payload, weight via profile.weight",
                       "dyadic grid makes the code's float ratios exact; 'unanimous => PERMIT' required only when every voter permits and the criterion is attainable"]
     return R.finish()
